@@ -8,6 +8,9 @@ use std::sync::Arc;
 
 use super::AvpValue;
 
+/// Maximum number of grouped AVPs that may be nested inside each other when decoding.
+pub const MAX_NESTING_DEPTH: usize = 32;
+
 #[derive(Debug, Clone)]
 pub struct Grouped {
     avps: Vec<Avp>,
@@ -37,11 +40,26 @@ impl Grouped {
         len: usize,
         dict: Arc<Dictionary>,
     ) -> Result<Grouped> {
+        Grouped::decode_from_depth(reader, len, dict, 1)
+    }
+
+    pub(crate) fn decode_from_depth<R: Read + Seek>(
+        reader: &mut R,
+        len: usize,
+        dict: Arc<Dictionary>,
+        depth: usize,
+    ) -> Result<Grouped> {
+        if depth > MAX_NESTING_DEPTH {
+            return Err(Error::DecodeError(
+                "invalid group avp, nested too deeply".into(),
+            ));
+        }
+
         let mut avps = Vec::new();
 
         let mut offset = 0;
         while offset < len {
-            let avp = Avp::decode_from(reader, Arc::clone(&dict))?;
+            let avp = Avp::decode_from_depth(reader, Arc::clone(&dict), depth)?;
             offset += avp.get_length() as usize;
             offset += avp.get_padding() as usize;
             avps.push(avp);
